@@ -7,7 +7,7 @@ import jsonpath_rfc9535 as jp
 from jsonpath_rfc9535.exceptions import JSONPathError
 
 from vtools import hcommon, holes
-from vtools.corpus import HOT, SEEDS
+from vtools.corpus import ESCAPE_EDGE, HOT, SEEDS
 from vtools.inst import P, assume
 
 INFO = {
@@ -91,6 +91,9 @@ def obligations(tier: str):
         obls.append(holes.obligation("seed%04d.k1" % j, pre, suf, 1, "total", 120))
         if tier == "thorough":
             obls.append(holes.obligation("seed%04d.k2" % j, pre, suf, 2, "total", 900))
+    for j, (pre, suf) in enumerate(ESCAPE_EDGE):
+        obls.append(holes.obligation("esc%02d.k1" % j, pre, suf, 1, "total", 120))
+        obls.append(holes.obligation("esc%02d.k2" % j, pre, suf, 2, "total", 300))
     for j, (pre, suf) in enumerate(NUMERIC_EDGE):
         obls.append(holes.obligation("num%02d.k1" % j, pre, suf, 1, "total", 300))
     for j, (pre, suf) in enumerate(nesting_seeds()):
